@@ -187,8 +187,24 @@ def run_rtgen(spec, res):
     rng = rng_for(spec.get("seed", 0), PROPERTY, 1, spec["index"])
     net = gn.gen_network(rng, hard=True)
     net = gn.present(net, rng, shuffle=True, idx_style=["num", "str", "strnum"][int(rng.integers(0, 3))], rebase=bool(rng.integers(0, 2)))
+    # switched shunts carry list-valued per-unit parameters (gs, bs: admittance blocks) on their own device base
+    nsw = int(rng.integers(0, 3))
+    sw = []
+    for k in range(nsw):
+        b = net["bus"][int(rng.integers(0, len(net["bus"])))]
+        sw.append(dict(idx="SW%d" % k, bus=b["idx"], Vn=float(b["Vn"]) * float(rng.choice([1.0, 1.0, 1.05])), Sn=float(rng.choice([net["mva"], 25.0, 250.0])),
+                       g=0.0, b=float(np.round(rng.uniform(0.0, 0.05), 4)), gs="[0.0, 0.0]",
+                       bs="[%.4f, %.4f]" % (float(rng.uniform(0.01, 0.05)), float(rng.uniform(0.01, 0.05))), ns="[2, 3]", u=1))
+
+    def build():
+        ss = gn.build_system(net, setup=False)
+        for row in sw:
+            ss.add("ShuntSw", dict(row))
+        ss.setup()
+        return ss
+    res.count("switched_shunts_generated", nsw)
     with au.Scratch("c13") as sd:
-        roundtrip(res, lambda: gn.build_system(net), "generated network %d" % spec["index"], sd)
+        roundtrip(res, build, "generated network %d" % spec["index"], sd)
     res.sig = "rtgen:%d:%d" % (spec.get("seed", 0), spec["index"])
     res.nontrivial = res.obs.get("roundtrip_models_compared", 0) >= 3
     res.sample = dict(buses=len(net["bus"]), mva=net["mva"])
@@ -384,6 +400,12 @@ def run_mpcgen(spec, res):
     rng = rng_for(spec.get("seed", 0), PROPERTY, 3, spec["index"])
     net = gn.gen_network(rng, hard=True, asym=False)
     net = gn.present(net, rng, shuffle=True, idx_style=["num", "num", "str"][int(rng.integers(0, 3))])
+    # the transformer flag of a branch is descriptive only (the equations use tap and phi of every branch):
+    # a tapped / phase-shifting branch entered without the flag is still the same branch
+    for ln in net["line"]:
+        if ln.get("trans") and rng.random() < 0.5:
+            ln["trans"] = 0
+            res.count("mpc_tapped_branches_without_trans_flag")
     ss = gn.build_system(net)
     mpc_roundtrip(res, ss, "generated network %d (idx %s)" % (spec["index"], type(net["bus"][0]["idx"]).__name__))
     res.sig = "mpcgen:%d:%d" % (spec.get("seed", 0), spec["index"])
